@@ -342,7 +342,8 @@ func c10Lines(alpha []rune, maxLen int) []string {
 	return out
 }
 
-var c10FieldAlpha = []rune{'a', 'é', ' ', '\t', ':', ','}
+// à is C3 A0 in UTF-8: its continuation byte is a Latin-1 blank (NBSP), é (C3 A9) has none
+var c10FieldAlpha = []rune{'a', 'é', 'à', ' ', '\t', ':', ','}
 
 // runs f, reports a panic of the code under test as a violation; false = panicked
 func c10Guard(r *kit.Run, detail func() map[string]any, f func()) (ok bool) {
